@@ -156,6 +156,8 @@ type Session struct {
 	tags      map[string]int
 	units     []*Unit
 	engineErr []string
+	propID    string
+	famCounts map[string]int
 	outDir    string
 }
 
@@ -179,7 +181,7 @@ func (s *Session) verifyKey(key string, con *Contract) *Unit {
 		u.Obls = append(u.Obls, &Obligation{Name: u.Short + ":binding", Goal: "function under contract exists with a body", Result: SolveResult{Status: "unknown", Model: "no function " + key + " in the loaded packages"}})
 		return u
 	}
-	e := &Eng{lit: lit, pkg: ref.pkg, info: ref.pkg.TypesInfo, fset: ref.pkg.Fset, contracts: s.cs, fn: ref.fd, fnKey: u.Short, con: con, strLits: map[string]string{}, allTags: &s.tags, globals: map[string]*Val{}, trustedUsed: map[string]bool{}}
+	e := &Eng{propID: s.propID, lit: lit, pkg: ref.pkg, info: ref.pkg.TypesInfo, fset: ref.pkg.Fset, contracts: s.cs, fn: ref.fd, fnKey: u.Short, con: con, strLits: map[string]string{}, allTags: &s.tags, globals: map[string]*Val{}, trustedUsed: map[string]bool{}}
 	func() {
 		defer func() {
 			if r := recover(); r != nil {
@@ -217,7 +219,7 @@ func (s *Session) verifyKey(key string, con *Contract) *Unit {
 
 func (s *Session) solveAll() {
 	var wg sync.WaitGroup
-	sem := make(chan struct{}, 6)
+	sem := make(chan struct{}, 14)
 	n := 0
 	run := func(o *Obligation) {
 		if o == nil || o.Script == "" {
@@ -325,7 +327,7 @@ func runCheck(id, tier string, dev bool, filter string) int {
 		fmt.Fprintln(os.Stderr, "config:", err)
 		return 2
 	}
-	s := &Session{tier: tier, timeoutS: 10, repo: repoDir(), tags: map[string]int{}}
+	s := &Session{propID: id, tier: tier, timeoutS: 10, repo: repoDir(), tags: map[string]int{}}
 	if tier == "thorough" {
 		s.timeoutS = 60
 	}
